@@ -31,6 +31,13 @@ theorem Rewrites.arityOk {c c' : Circuit} (hgood : c.Good) (har : ArityOk c) (h 
     obtain ⟨n, hn⟩ := hnodes m op hm
     exact har n op hn
 
+theorem arityOk_empty (ne np nc : Nat) : ArityOk (Circuit.empty ne np nc) := fun n op h => by simp [Circuit.empty] at h
+
+theorem arityOk_addCore (c : Circuit) (op : Wire.Op) (h : ArityOk c) (hop : ArOp op) : ArityOk (c.addCore op) := by
+  unfold ArityOk
+  rw [Wire.addCore_eq]
+  exact Wire.NodesSat_insertAt c op _ h hop
+
 theorem regIx_of_valid (c : Circuit) (r : Reg) (hv : c.validReg r = true) (hty : r.ty ≠ .c) :
     (regIx c.ne c.np r).isSome = true := by
   obtain ⟨ty, idx⟩ := r
